@@ -31,7 +31,7 @@ import (
 
 func Main() {
 	mc.Main("C24", "exploration",
-		"stores {leveldb,leveldb2,leveldb3} x directories {/r,/buckets/b1,/buckets/b1/d} x entries: mime{unset,text/plain,application/octet-stream} x presence of {md5,symlink,extended,hard link id+counter,remote,ttl,user/group names} x content{none,text,gzip magic} x chunk count{0,1,2,50,51,60} x chunk flavour{plain,source fid,cipher key,compressed,manifest} x op{insert under a fresh name, update over a different entry}; plus a value domain: one attribute at a time over boundary values (13 modes, 5 times x mtime/crtime, uid/gid/ttl/filesize extremes, empty/ascii/utf-8 strings, md5, symlink, groups, extended, hard-link counter) x 2 base entries x op; read back by FindEntry, ListDirectoryEntries, ListDirectoryPrefixedEntries; oracle: filer.EqualEntry on file-id-canonicalised copies; distinct = (store, dir class, entry features, outcome)",
+		"stores {leveldb,leveldb2,leveldb3} x directories {/r,/buckets/b1,/buckets/b1/d} x entries: mime{unset,text/plain,application/octet-stream} x presence of {md5,symlink,extended,hard link id+counter,remote,ttl,user/group names} x content{none,text,gzip magic} x chunk count{0,1,2,50,51,60} x chunk flavour{plain,source fid,cipher key,compressed,manifest} x op{insert under a fresh name, update over a different entry}; plus a read-modify-update domain (lookup, change chunk FileId / SourceFileId / attributes in place, UpdateEntry; fresh chunk with Fid and a different FileId), plus a value domain: one attribute at a time over boundary values (13 modes, 5 times x mtime/crtime, uid/gid/ttl/filesize extremes, empty/ascii/utf-8 strings, md5, symlink, groups, extended, hard-link counter) x 2 base entries x op; read back by FindEntry, ListDirectoryEntries, ListDirectoryPrefixedEntries; oracle: filer.EqualEntry on file-id-canonicalised copies; distinct = (store, dir class, entry features, outcome)",
 		run)
 }
 
